@@ -1,7 +1,8 @@
 import Tcs.Proofs.HandlerTie.Bodies
 namespace Tcs
 
-/-! source tie (add_version handler): validation order, body loop, retry loop with the create-if-absent transaction, responses -/
+/-! source tie (add_version handler): retry loop with the create-if-absent transaction, responses (the validation steps
+    and the body loop: `AddVersionSem.lean`, `Bodies.lean`) -/
 
 theorem handlerSrc_ensure : HandlerSrc.addVersionEnsure = ensureClientFixed := by
   simp only [HandlerSrc.addVersionEnsure, ensureClientFixed, call, bind, TxnM.bind, pure]
@@ -28,31 +29,5 @@ theorem handlerSrc_loop (h : HttpCfg) (hS : h.ensure = ensureClientFixed) (r : R
         cases a with
         | ok v => first | rfl | (cases u <;> rfl)
         | expected l => rfl
-
-theorem handlerSrc_addVersion (h : HttpCfg) (hS : h.ensure = ensureClientFixed) (r : Request) (p : Uuid) :
-    HandlerSrc.addVersion h r p =
-      (if contentType r ≠ HS_CT.toUTF8.toList then .done (refuse .badRequest)
-       else match clientIdHeader h.allow r with
-         | .error f => .done (refuse f)
-         | .ok c =>
-           match assemble h.params.maxSize r.chunks ByteArray.empty with
-           | none => .done (refuse .badRequest)
-           | some body =>
-             if body.size = 0 then .done (refuse .badRequest)
-             else addVersionLoop h.cfg h.ensure c p body r.newId r.now 3) := by
-  unfold HandlerSrc.addVersion
-  split
-  · rfl
-  · cases clientIdHeader h.allow r with
-    | error f => rfl
-    | ok c =>
-      simp only [handlerSrc_addVersionBody]
-      cases assemble h.params.maxSize r.chunks ByteArray.empty with
-      | none => rfl
-      | some body =>
-        simp only []
-        split
-        · rfl
-        · exact handlerSrc_loop h hS r c p body 3
 
 end Tcs
